@@ -4,7 +4,7 @@
    callback of StreamingContext.start()), PV.Model.DStreamRdd (local RDD model). *)
 From Coq Require Import String ZArith NArith List Bool Permutation.
 Require Import PV.Base.Val PV.Model.DStreamRdd PV.Model.DStream.
-Require Import PV.Proofs.DStream PV.Proofs.DStreamHist.
+Require Import PV.Proofs.DStream PV.Proofs.DStreamHist PV.Proofs.DStreamApi.
 Import ListNotations.
 Open Scope Z_scope.
 
@@ -79,3 +79,113 @@ Theorem C10_queue_all_at_once : forall g i dflt q0,
                               | _, _ => default_rdd dflt
                               end)).
 Proof. exact queue_all_at_once. Qed.
+
+(* ---------- per-batch op = RDD op ---------- *)
+
+(* every program of API calls (each call referring to streams returned by earlier calls: arbitrary
+   DAGs, diamonds, several sources) registers a well-formed graph *)
+Theorem C10_program_graph_wf : forall p, prog_ok p ->
+  wf (fst (expand p)) /\ length (snd (expand p)) = length p /\
+  handles_ok (fst (expand p)) (snd (expand p)) /\
+  forall k c, nth_error p k = Some c ->
+    forall t srcv V, solves (fst (expand p)) t srcv V ->
+      nth (nth k (snd (expand p)) O) V RNone =
+      call_sem c t (srcv (nth k (snd (expand p)) O))
+               (map (fun s => nth (nth s (snd (expand p)) O) V RNone) (call_args c)).
+Proof. exact prog_sem. Qed.
+
+(* after the callback ran at time t on the graph of ANY program, the stream returned by every call
+   (map, flatMap, filter, mapValues, flatMapValues, reduceByKey, groupByKey, count, countByValue,
+   reduce, union, join, outer joins, cogroup, transform, repartition, ...) holds [call_sem]: the RDD
+   operation of that call applied to the RDDs its argument streams hold in the same interval; a
+   source holds the batch its stream delivered *)
+Theorem C10_per_batch_op : forall p env t st,
+  prog_ok p -> let G := fst (expand p) in let hs := snd (expand p) in
+  length (ns st) = length G -> (forall i s, nth_error (ns st) i = Some s -> ctime s < t) ->
+  exists st', tick G env t st = Some st' /\
+    forall k c, nth_error p k = Some c ->
+      crdd_at st' (nth k hs O) =
+      call_sem c t (delivered G env st (nth k hs O)) (map (fun s => crdd_at st' (nth s hs O)) (call_args c)).
+Proof. exact prog_tick. Qed.
+
+(* the expressions the method bodies build are the RDD operations of the same name *)
+Theorem C10_map_is_rdd_map : forall f r,
+  rdd_setName (rdd_setName (rdd_mapPartitionsWithIndex (fun _ p => map f p) r)) = rdd_map f r.
+Proof. exact mapPartitionsWithIndex_is_map. Qed.
+Theorem C10_flatMap_is_rdd_flatMap : forall f r,
+  rdd_setName (rdd_mapPartitionsWithIndex (fun _ p => flat_map f p) r) = rdd_flatMap f r.
+Proof. exact mapPartitionsWithIndex_is_flatMap. Qed.
+(* reduce(f): one element, functools.reduce(f, elements) -- nothing for an empty interval *)
+Theorem C10_reduce_is_rdd_reduce : forall f r,
+  flat (rdd_reduce_expr f r) = match flat r with [] => [] | a :: l => [fold_left f l a] end.
+Proof. exact reduce_expr_flat. Qed.
+(* count(): [rdd.count()], for every partitioning -- except that an interval without any batch
+   (EmptyRDD, zero partitions) yields an empty RDD instead of [0]  (reading recorded in DESIGN) *)
+Theorem C10_count_is_rdd_count : forall r,
+  flat (rdd_count_expr r) = match parts r with [] => [] | _ => [VInt (rdd_count r)] end.
+Proof. exact count_expr_flat. Qed.
+(* parallelize (used by sources, union, repartition, groupByKey) keeps every element, in order,
+   for every numSlices; proved against the regenerated slicing kernel par_take *)
+Theorem C10_parallelize_collect : forall x n, flat (parallelize x n) = x.
+Proof. exact parallelize_flat. Qed.
+Theorem C10_union_collect : forall a b, rdd_ok a -> rdd_ok b -> flat (ctx_union a b) = flat a ++ flat b.
+Proof. exact flat_ctx_union. Qed.
+Theorem C10_repartition_collect : forall n r, flat (repartition_fn n r) = flat r.
+Proof. exact flat_repartition. Qed.
+
+(* ---------- monitored directory ---------- *)
+(* one interval: the files delivered are exactly the listed files not yet marked done; they are marked *)
+Theorem C10_file_tick : forall g env t st i d0 s,
+  wf g -> nth_error g i = Some (Src (SFile d0)) -> nth_error (ns st) i = Some s ->
+  let new := new_files (env i) (fdone s) in
+  nth_error (ns (tick_spec g env t st)) i =
+    Some (mkNs t (RRdd (deserialize (match new with [] => QNone | _ => QFiles new end)))
+               (queue s) (fdone s ++ map fst new)).
+Proof. exact file_tick. Qed.
+Theorem C10_file_delivered_is_new : forall ls done f,
+  In f (new_files ls done) -> In f ls /\ name_in (fst f) done = false.
+Proof. exact new_files_fresh. Qed.
+(* over a history: every file listed at some tick is marked done afterwards, hence (by the two
+   statements above) delivered in exactly one interval: the first one in which it is listed *)
+Theorem C10_file_once : forall g i d0,
+  wf g -> nth_error g i = Some (Src (SFile d0)) ->
+  forall h, exists s,
+    nth_error (ns (spec_hist g h (init g))) i = Some s /\
+    (forall x, name_in x d0 = true -> name_in x (fdone s) = true) /\
+    (forall k t env f, nth_error h k = Some (t, env) -> In f (env i) -> name_in (fst f) (fdone s) = true).
+Proof. exact file_once. Qed.
+
+(* ---------- non-vacuity: a diamond (one queue, two branches, union, count, two actions) ---------- *)
+Definition ex_inc (v : val) : val := match v with VInt x => VInt (x + 1) | _ => v end.
+Definition ex_even (v : val) : bool := match v with VInt x => Z.even x | _ => false end.
+Definition ex_prog : list call :=
+  [CSource (SQueue true None [[VInt 1; VInt 2]; []; [VInt 4]]);
+   CMap 0 ex_inc; CFilter 0 ex_even; CUnion 1 2; CCount 3; CForeachRDD 3; CForeachRDD 4].
+Definition ex_env : nat -> listing := fun _ => [].
+Definition ex_hist : list (Z * (nat -> listing)) := [(1, ex_env); (2, ex_env); (3, ex_env); (5, ex_env)].
+Definition ex_flat (a : rv) : list val := match a with RRdd r => flat r | RNone => [VErr "None"] end.
+
+Example ex_prog_ok : prog_ok ex_prog.
+Proof. unfold prog_ok, ex_prog; simpl. repeat split; intros s H; simpl in H; intuition (subst; auto with arith). Qed.
+Example ex_hist_increasing : increasing 0 ex_hist.
+Proof. simpl. repeat split; reflexivity. Qed.
+(* 11 registered nodes: the source, 3 for map, 1 filter, 1 union, 3 for count, 2 actions *)
+Example ex_nodes : length (fst (expand ex_prog)) = 11%nat /\ snd (expand ex_prog) = [0; 3; 4; 5; 8; 9; 10]%nat.
+Proof. vm_compute. split; reflexivity. Qed.
+(* union and count per interval; the 4th interval has no batch: union of a non-EmptyRDD gives an RDD
+   with one empty partition (count [0]) *)
+Example ex_run :
+  option_map (fun st => (ex_flat (crdd_at st 5), ex_flat (crdd_at st 8), length (log st)))
+             (run_hist (fst (expand ex_prog)) (firstn 1 ex_hist) (init (fst (expand ex_prog))))
+  = Some ([VInt 2; VInt 3; VInt 2], [VInt 3], 11%nat).
+Proof. vm_compute. reflexivity. Qed.
+Example ex_run_exhausted :
+  option_map (fun st => (ex_flat (crdd_at st 0), ex_flat (crdd_at st 5), ex_flat (crdd_at st 8),
+                         pops 0 (log st), fires 9 (log st), fires 10 (log st)))
+             (run_hist (fst (expand ex_prog)) ex_hist (init (fst (expand ex_prog))))
+  = Some ([], [], [VInt 0], 4%nat, 4%nat, 4%nat).
+Proof. vm_compute. reflexivity. Qed.
+(* a source whose interval has no batch, counted directly: empty, not [0] *)
+Example ex_count_of_empty : flat (rdd_count_expr empty_rdd) = [] /\
+                            flat (rdd_count_expr (parallelize [] None)) = [VInt 0].
+Proof. vm_compute. split; reflexivity. Qed.
